@@ -1,0 +1,13 @@
+//go:build verif
+
+package failsafe
+
+// VerifHook, when set by a verification harness, is called at named points between two internal steps that no user
+// callback separates. It may block, which makes it a scheduler gate. Only compiled with the verif build tag.
+var VerifHook func(point string, subject any)
+
+func verifPoint(point string, subject any) {
+	if h := VerifHook; h != nil {
+		h(point, subject)
+	}
+}
